@@ -126,8 +126,12 @@ def rule_order(ctx):
     allowed = {s1, s3, s4i}
     extra = [e for e in bm["effects"] if e["bb"] not in allowed and e["target"][0] == "arg"]
     ctx.ob("BM-ORDER", "no other mutable access to self.parts / self.package_type in build()", not extra, fn=key, detail="; ".join("%s on %s" % (e["path"], e["target"]) for e in extra))
-    pw = [w for w in body.partial_writes(1) if not body.is_cleanup(w[0])]
-    ctx.ob("BM-ORDER", "no direct field assignment to self in build()", not pw, fn=key, detail=str([(w[0]) for w in pw]))
+    # a direct store to namespace / version / subpath cannot break an invariant of this property (the accessors filter empty
+    # strings, EXPOSE); one to the name, the qualifiers or the type can bypass the guard, the clean-ups or the hook
+    from .common import build_direct_writes
+    harmless = ("parts.namespace", "parts.version", "parts.subpath")
+    pw = [(b, f) for (b, f) in build_direct_writes(body) if f not in harmless]
+    ctx.ob("BM-ORDER", "no direct store into name, qualifiers or type in build()", not pw, fn=key, detail=str([f for _, f in pw]))
     # S5 payload moves exactly the two fields
     pay = st["S5"][0]["payload"]
     okp = pay[0] == "agg" and pay[1][1] == "GenericPurl" and [models.field_path(x) for x in pay[2]] == ["package_type", "parts"] and pay[1][3] == ("package_type", "parts")
